@@ -219,7 +219,7 @@ def make_inclass_cases(seed, n, start=0, knobs=None):
         attempts += 1
         rng = random.Random("inclass-%d-%d" % (seed, i))
         # every 3rd / 4th case focuses on observer positions / error-handler lookup (see gen.Knobs.flavour)
-        kn = knobs or gen.Knobs(flavour={1: "routing", 2: "observers", 3: "errors"}.get(i % 5), domains=(i % 6 == 5))
+        kn = knobs or gen.Knobs(flavour={1: "routing", 2: "observers", 3: "errors", 4: "ownership"}.get(i % 5), domains=(i % 6 == 5))
         i += 1
         spec = gen.gen_inclass(rng, kn)
         ok, problems, clause = gen.certificate(spec)
